@@ -208,6 +208,27 @@ pub fn run_config(cfg: &Config, seed: u64, steps: usize, trace: &mut String, obs
         let answered = rs.last().map(|r| parse_resp(r).map(|(f, _)| f.opaque == sentinel).unwrap_or(false)).unwrap_or(false);
         let _ = writeln!(obs, "S {} {}", conn_id, if closed || !answered { 1 } else { 0 });
     }
+    // 1c. a store of more than a thousand records is flushed like a small one, in every
+    // configuration: the flush is answered and nothing stored before it is found afterwards
+    {
+        let mut b = Vec::new();
+        for i in 0..1100u32 {
+            b.extend_from_slice(&crate::gen::set_like(op::SETQ, format!("bulk{}", i).as_bytes(), b"v", 0, 0).bytes());
+        }
+        b.extend_from_slice(&crate::gen::flush(op::FLUSH, None).opaque(0xf1).bytes());
+        b.extend_from_slice(&Req::new(op::GET).key(b"bulk7").opaque(0xf2).bytes());
+        sentinel += 1;
+        let mut all = b.clone();
+        all.extend_from_slice(&Req::new(op::NOOP).opaque(sentinel).bytes());
+        let (rs, closed) = exchange(&mut sock, &b, sentinel, Duration::from_secs(10));
+        let _ = writeln!(trace, "C {} {}", conn_id, hex(&all));
+        let _ = writeln!(trace, "G {}", conn_id);
+        for r in &rs {
+            let _ = writeln!(obs, "R {}", hex(r));
+        }
+        let answered = rs.last().map(|r| parse_resp(r).map(|(f, _)| f.opaque == sentinel).unwrap_or(false)).unwrap_or(false);
+        let _ = writeln!(obs, "S {} {}", conn_id, if closed || !answered { 1 } else { 0 });
+    }
     drop(sock);
     std::thread::sleep(Duration::from_millis(50));
     // 2. the configured connection limit is the one enforced
